@@ -91,6 +91,8 @@ func (ex *Exec) resetPath() {
 	ex.sharedSet = nil
 	ex.sharedMaps = nil
 	ex.sharedOrder = nil
+	ex.sharedRoots = nil
+	ex.cellNames = nil
 	ex.nextID = 0
 	ex.onces = map[*value]bool{}
 	ex.files = newFileTable()
